@@ -62,23 +62,32 @@ def _mv_entries(shapes):
 _MM = [(a, b, c, d, tx, ty) for a in (1, 2) for b in (1, 2) for c in (1, 2) for d in (1, 2) for tx in (0, 1) for ty in (0, 1)]
 _MM += [(2, 3, 3, 2, 0, 0), (3, 2, 3, 2, 1, 0), (2, 3, 2, 3, 0, 1), (3, 2, 2, 3, 1, 1), (1, 3, 3, 2, 0, 0), (2, 3, 3, 1, 0, 0),
         (3, 2, 2, 3, 0, 0), (2, 3, 2, 3, 0, 0), (2, 3, 2, 3, 1, 0), (3, 2, 2, 3, 0, 1), (2, 3, 2, 2, 0, 0), (2, 2, 2, 3, 0, 0), (2, 2, 3, 2, 0, 0)]
-K('C11.b', property='C11', engine='symex', harness='C11/prod.cpp',
-  entries=_mv_entries(_ALL) + ['k_%s_%dx%d_%dx%d_%d%d' % ((g,) + z) for z in _MM for g in ('mm', 'gmm')], tus=_MATTUS,
-  defines={'all': {'VF_SHAPES(X)': ' '.join('X(%d,%d)' % s for s in _ALL), 'VF_MM(Z)': ' '.join('Z(%d,%d,%d,%d,%d,%d)' % z for z in _MM)}},
-  bounds={'quick': 'matrix x vector: MatrixRectangular of every shape nrows,ncols in 1..3, transpose flag false/true, x and y allocated at exactly the documented lengths, y with arbitrary initial content. '
-                   'matrix x matrix: x (a x b), y (c x d) for every a,b,c,d in 1..2 with the four transposition flag pairs (conformable or not), plus 13 shape/flag combinations with a '
-                   "dimension 3 (2x3x2, 3x2x3, 1x3x2, 2x3x1, non-conformable 2x3.2x3, 2x3.2x2, 2x2.3x2); 'this' pre-sized to the result shape. All entries integer-valued |v|<=100"},
+_PRODASSUME = ['real-arithmetic reading; on the integer grid |v|<=100 all products and sums are exact in IEEE as well']
+K('C11.b.mv', property='C11', engine='symex', harness='C11/prod.cpp', entries=_mv_entries(_ALL), tus=_MATTUS,
+  defines={'all': {'VF_SHAPES(X)': ' '.join('X(%d,%d)' % s for s in _ALL), 'VF_NO_MM': 1}},
+  bounds={'quick': 'MatrixRectangular of every shape nrows,ncols in 1..3, transpose flag false/true; matrix, x and the initial content of y '
+                   'integer-valued |v|<=100; x, y allocated at exactly the documented lengths'},
   timeout_ms={'quick': 60000, 'thorough': 600000}, validate={'quick': 5, 'thorough': 20}, validate_doubles='int',
   symex={'assume_no_ub': True},
   what='AMatrix::prodMatVecInPlace (VectorDouble and constvect/vect overloads), prodMatVecInPlacePtr, addProdMatVecInPlace, prodVecMatInPlace, '
        'prodVecMatInPlacePtr with AMatrixDense::_prodMatVecInPlacePtr/_prodVecMatInPlacePtr/_addProdMatVecInPlaceToDestPtr (Eigen), '
        'AMatrixDense::prodMatVec/prodVecMat: every output entry equals the defining sum, no access outside x/y, inputs unchanged; '
-       'with address checking on, the size checks accept exactly the conformable lengths and leave y untouched otherwise. '
-       'AMatrixDense::prodMatMatInPlace (Eigen products, all four transposition branches) and the generic AMatrix::prodMatMatInPlace '
+       'with address checking on, the size checks accept exactly the conformable lengths and leave y untouched otherwise',
+  out='shapes above 3x3; rounding (integer-valued data: all sums exact); symmetric and sparse storage',
+  assumptions=_PRODASSUME, stubs=_PRODSTUBS)
+K('C11.b.mm', property='C11', engine='symex', harness='C11/prod.cpp',
+  entries=['k_%s_%dx%d_%dx%d_%d%d' % ((g,) + z) for z in _MM for g in ('mm', 'gmm')], tus=_MATTUS,
+  defines={'all': {'VF_MM(Z)': ' '.join('Z(%d,%d,%d,%d,%d,%d)' % z for z in _MM), 'VF_NO_MV': 1}},
+  bounds={'quick': 'x (a x b), y (c x d) MatrixRectangular: every a,b,c,d in 1..2 with the four transposition flag pairs (conformable or not), '
+                   'plus 13 shape/flag combinations with a dimension 3 (2x3x2, 3x2x3, 1x3x2, 2x3x1, non-conformable 2x3.2x3, 2x3.2x2, 2x2.3x2); '
+                   "'this' pre-sized to the result shape; integer-valued entries |v|<=100"},
+  timeout_ms={'quick': 60000, 'thorough': 600000}, validate={'quick': 5, 'thorough': 20}, validate_doubles='int',
+  symex={'assume_no_ub': True},
+  what='AMatrixDense::prodMatMatInPlace (Eigen products, all four transposition branches) and the generic AMatrix::prodMatMatInPlace '
        '(qualified call): conformable shapes give R(i,j) = sum_k op(x)(i,k) op(y)(k,j) with the right shape; non-conformable shapes are refused '
        "and leave 'this' untouched; operands unchanged; no out-of-bounds access",
-  out="shapes above 3x3 (products 2x3x2); 'this' not pre-sized to the result shape; operands aliasing 'this'; symmetric/sparse operands; prodNormMatMatInPlace; rounding (integer-valued data: all sums exact)",
-  assumptions=['real-arithmetic reading; on the integer grid |v|<=100 all products and sums are exact in IEEE as well'], stubs=_PRODSTUBS)
+  out="dimensions above 3; 'this' not pre-sized to the result shape; operands aliasing 'this'; symmetric/sparse operands; prodNormMatMatInPlace",
+  assumptions=_PRODASSUME, stubs=_PRODSTUBS)
 
 # C11.e VectorHelper sorting/ranking helpers and reductions
 _VHTUS = ['src/Basic/VectorHelper.cpp', 'src/Basic/Utilities.cpp']
@@ -132,3 +141,16 @@ K('C11.f', property='C11', engine='symex', harness='C11/vnum.cpp',
   out='lengths above 4; rounding (real-arithmetic reading; sqrt as the exact non-negative root); NaN/inf entries; VectorNumT<int>',
   assumptions=['real-arithmetic reading of the sums/products; the header documents no TEST handling for these methods, none is assumed'],
   stubs=['abs(int) (solver build only): x < 0 ? -x : x (C library function; the unqualified abs calls of VectorNumT.hpp resolve to it)'])
+
+# C11.d sparse back-end cs (3rd-party csparse): triplet -> compressed column, transpose, gaxpy vs the dense definition
+for _m, _n, _nzs, _tiers, _sfx in ((2, 2, range(0, 5), ('quick', 'thorough'), ''), (2, 3, range(0, 4), ('quick', 'thorough'), ''), (2, 3, (4,), ('thorough',), '.nz4')):
+    K('C11.d.%dx%d%s' % (_m, _n, _sfx), property='C11', engine='symex', harness='C11/cs.cpp', entries=['k_cs_%d' % z for z in _nzs], tiers=_tiers,
+      tus=['3rd-party/csparse/csparse.cpp'], defines={'all': {'VF_M': _m, 'VF_N': _n}, 'quick': {'VF_NZSYM': 1}, 'thorough': {'VF_NZSYM': 2}},
+      bounds={'quick': '%dx%d matrix, exactly %s triplet entries at arbitrary positions (duplicates allowed), integer values |v|<=100; cs_gaxpy with x = each unit vector, the all-ones vector, (2,-4,8) and (for at most 1 entry; thorough: 2) an arbitrary integer-valued x; y0 arbitrary' % (_m, _n, '%d..%d' % (min(_nzs), max(_nzs)))},
+      timeout_ms={'quick': 60000, 'thorough': 600000}, validate={'quick': 10, 'thorough': 30}, validate_doubles='int',
+      what='cs_spalloc, cs_entry, cs_triplet (triplet -> compressed column, with cs_cumsum/cs_done), cs_transpose, cs_gaxpy, cs_spfree: '
+           'column pointers start at 0, are monotone and end at nz, row indices in range, the dense reading equals the per-cell sum of the '
+           'triplet values (duplicates summed), transpose(j,i)==A(i,j), y == y0 + A x',
+      out='more than 4 entries, larger shapes; cs_multiply/cs_add/cs_dupl; NF_Triplet and MatrixSparse wrappers; the Eigen sparse back-end',
+      assumptions=['the triplet dimensions are re-written as the (asserted equal) constants before cs_triplet so that allocation sizes are concrete; allocation never fails'],
+      stubs=[])
